@@ -395,6 +395,9 @@ struct event_base {
 
 	/** "Prepare" and "check" watchers. */
 	struct evwatch_list watchers[EVWATCH_MAX];
+	/** The watcher that event_base_loop() will run after the one whose
+	 * callback is running now; evwatch_free() keeps it valid. */
+	struct evwatch *watcher_next;
 };
 
 struct event_config_entry {
